@@ -7,7 +7,7 @@ def run(ck, model_ok):
                'times), the start of one thread (reader, janitor, hasher1..4) is refused; oracle: returns or raises, no worker thread left, piece string stored only together with '
                'True and only complete and correct, the callback\'s exception object reaches the caller, read failures surface as ReadError, at most one more piece is queued '
                'after the stop flag is set; schedules replayed on the Coq model; non-trivial = distinct (scenario, seed)')
-    pc.run_family(ck, model_ok, 'C04', [('faults', 900, 60000), ('plain', 100, 5000)])
+    pc.run_family(ck, model_ok, 'C04', [('faults', 900, 36000), ('plain', 100, 4000)])
     ck.notes += ['read faults are injected at file.read() through a proxy installed in torf._stream by the harness; thread start refusal through the substituted threading module']
 
 
